@@ -143,6 +143,21 @@ def run():
         rid = f"d{len(reqs)}"
         reqs.append({"id": rid, "src": consumers[ci].format(d=d), "fuel": 100000, "depth": 150, "deadline_ms": 4000})
         meta[rid] = ("derived", builders[bj], consumers[ci], 0)
+    # wide and deep programs: counts around every power of two a table, cache or buffer might be sized by
+    for n in ([63, 64, 65, 66, 127, 128, 129, 255, 256, 257, 1023, 1024, 1025, 4097] if thorough else [64, 65, 129, 257, 1025]):
+        args = ", ".join(str(k) for k in range(1, n + 1))
+        ps = ", ".join(f"p{k}" for k in range(1, n + 1))
+        progs_w = [f"xs := (1:{n + 1}).A; {{|a| \\{n}}}(*xs)", f"(1:{n + 1}).A.{{|a, b| \\0.len}}", f"{{|{ps}| p{n}}}({args})", f"[{args}].len", f"[{args}]@{{|x| x}}.sum",
+                   "{" + ", ".join(f"k{k}: {k}" for k in range(n)) + "}.keys.len", "%{" + ", ".join(f"{k}: {k}" for k in range(n)) + "}.len",
+                   f"o := (1:{n + 1}).A@{{|i| [\"k#{{i}}\", i]}}.O; {{|k1: 0| \\_.keys.len}}(**o)", "[" * min(n, 300) + "1" + "]" * min(n, 300), "(" * min(n, 300) + "1" + ")" * min(n, 300),
+                   "x := 0\n" + "x := x + 1\n" * n + "x", "\"" + "#{1}" * n + "\".len", "1" + ".S.I" * min(n, 300), "f := {|x| x}; " + "f(" * min(n, 200) + "1" + ")" * min(n, 200),
+                   f"<{{|i| yield i if i < {n}; recur(i + 1)}}>.new(0).A.len", "{|" + ", ".join(f"k{k}: {k}" for k in range(n)) + f"| k{n - 1}}}()",
+                   f"it := <{{|{ps}| yield p{n}}}>.new({args}); it.next", "1" + " + 1" * n, "[1]" + "[0:]" * min(n, 300) if False else "[1]" + ".A" * min(n, 300),
+                   f"\"a\" * {n} + \"b\" * {n}", f"({n}:0:-1).A.len", "{|x| " * min(n, 100) + "x" + "}" * min(n, 100), f"m{{|{ps}| .S}}.bear.call({args})"]
+        for src in progs_w:
+            rid = f"W{len(reqs)}"
+            reqs.append({"id": rid, "src": src, "fuel": 2000000, "depth": 400, "deadline_ms": 15000})
+            meta[rid] = ("wide", str(n), "", 0)
     # iterator literals: every combination of declared parameters, arguments given to new and to recur (too few, exact, too many, keywords), advanced in several ways
     for np_ in range(0, 4):
         ps = ["a", "b", "c"][:np_]
@@ -312,7 +327,7 @@ def run():
                       f"tuples ({len(argsets)}: none, one from a {len(SUB12) if not thorough else len(POOL)}-value pool, pairs from a sub-pool, keyword / * / ** forms); token space: all pairs of {len(reps)} token "
                       "representatives (from the real lexer over the corpus + malformed tokens) + seeded triples; byte-level mutations of corpus files; index/slice space "
                       "on 15 receivers x 26 indices x 4 forms; derived structures (20 key kinds x 17 builders x 33 consumers: conversions such as Arr#O / Arr#M over descendants of str, then ** / * expansion, "
-                      "iteration, printing, JSON); the value of bodies ending in each statement kind (defer / return / yield / raise, guarded, nested) in 20 uses; module functions (import / invite! / http constructors and client) x 20 argument kinds; iterator literals (0..3 parameters x 0..4 arguments to new x 0..4 to recur x keywords x 4 ways to advance); calls that ended in an error made three more times in one process; stdin shapes through <>; interactive sessions: sessions of <= 4 (thorough 5) lines over 12 line kinds that PanRepl allows (quick: 4000 seeded of 22621; thorough: 60000 seeded of all), typed into "
+                      "iteration, printing, JSON); the value of bodies ending in each statement kind (defer / return / yield / raise, guarded, nested) in 20 uses; module functions (import / invite! / http constructors and client) x 20 argument kinds; wide and deep programs (22 shapes x counts 64..1025, thorough 63..4097); iterator literals (0..3 parameters x 0..4 arguments to new x 0..4 to recur x keywords x 4 ways to advance); calls that ended in an error made three more times in one process; stdin shapes through <>; interactive sessions: sessions of <= 4 (thorough 5) lines over 12 line kinds that PanRepl allows (quick: 4000 seeded of 22621; thorough: 60000 seeded of all), typed into "
                       "runscript.StartREPL and compared with the transcript PanRepl prescribes (chunks evaluated in one scope), + seeded sessions over mode words in every capitalisation; a seeded sample again through runscript.RunSource; non-trivial = runs ending in a "
                       "Pangaea error (a built-in was reached with arguments it has to reject)")
     ck.assumptions = ["programs cut off by the evaluation fuel / depth / deadline / heap watchdog are discarded (the property's proviso)",
